@@ -307,7 +307,14 @@ def tree_pairs(ctx, rng, k):
                 ('file pattern None', lambda: WM.WcMatch(root, None, None, wfl0).match(), lambda: WM.WcMatch(broot, None, None, wfl0).match()),
                 ('file pattern empty', lambda: WM.WcMatch(root, '', 'b', wfl0).match(), lambda: WM.WcMatch(broot, b'', b'b', wfl0).match()),
                 ('exclude pattern omitted', lambda: WM.WcMatch(root, '*', flags=wfl0).match(), lambda: WM.WcMatch(broot, b'*', flags=wfl0).match()),
-                ('exclude pattern empty', lambda: WM.WcMatch(root, 'a*|b', '', wfl0).match(), lambda: WM.WcMatch(broot, b'a*|b', b'', wfl0).match())):
+                ('exclude pattern empty', lambda: WM.WcMatch(root, 'a*|b', '', wfl0).match(), lambda: WM.WcMatch(broot, b'a*|b', b'', wfl0).match()),
+                # the spelling of the root (a closing separator, two of them, a `.` segment) comes back in the results alike
+                ('root with a closing separator', lambda: WM.WcMatch(root + '/', '*', None, wfl0).match(), lambda: WM.WcMatch(broot + b'/', b'*', None, wfl0).match()),
+                ('root with two closing separators', lambda: WM.WcMatch(root + '//', '*', None, wfl0 | WM.FILEPATHNAME).match(),
+                 lambda: WM.WcMatch(broot + b'//', b'*', None, wfl0 | WM.FILEPATHNAME).match()),
+                ('root ending in /./', lambda: WM.WcMatch(root + '/./', None, 'b', wfl0 | WM.DIRPATHNAME).match(),
+                 lambda: WM.WcMatch(broot + b'/./', None, b'b', wfl0 | WM.DIRPATHNAME).match()),
+                ('root with a closing separator, not recursive', lambda: WM.WcMatch(root + '/', '*').match(), lambda: WM.WcMatch(broot + b'/', b'*').match())):
             pair(ctx, 'WcMatch on a tree (' + what + ')', {'api': 'WcMatch', 'pattern': '', 'flags': wfl0, 'tree': spec, 'defaults': what}, sa, ba)
             ctx.count('tree_pairs')
         if k % 5 == 0:
@@ -343,8 +350,55 @@ def flag_pair_sweep(ctx):
     ctx.count('flag_pair_sweep_pairs', n)
 
 
+def tilde_pairs(ctx):
+    """GLOBTILDE: the user folder is expanded alike for bytes and str, also behind an exclusion marker, in a SPLIT piece, in a BRACE
+    alternative and in exclude=."""
+    if ctx.shard != 1 % max(ctx.nshards, 1):
+        ctx.count('tilde_pair_checks', 0)
+        return
+    with T.Tree([('a', 'f', None), ('b', 'f', None), ('d', 'd', None), ('d/a', 'f', None), ('!x', 'f', None)], 'c18t-') as tr:
+        home = tr.root
+        old = os.environ.get('HOME')
+        os.environ['HOME'] = home
+        try:
+            B = G.GLOBTILDE | G.GLOBSTAR
+            eh = G.escape(home)
+            calls = [
+                ('glob ~/*', lambda c: G.glob(c('~/*'), flags=B)),
+                ('glob [home/**, !~/a]', lambda c: G.glob([c(eh + '/**'), c('!~/a')], flags=B | G.NEGATE)),
+                ('glob home/**|!~/a (SPLIT)', lambda c: G.glob(c(eh + '/**|!~/a'), flags=B | G.NEGATE | G.SPLIT)),
+                ('glob [home/**, -~/a] (MINUSNEGATE)', lambda c: G.glob([c(eh + '/**'), c('-~/a')], flags=B | G.NEGATE | G.MINUSNEGATE)),
+                ('glob {~/a,~/b} (BRACE)', lambda c: G.glob(c('{~/a,~/b}'), flags=B | G.BRACE)),
+                ('glob ~/* exclude=~/a', lambda c: G.glob(c('~/*'), flags=B, exclude=c('~/a'))),
+                ('glob ~/* exclude=[~/d, ~/b]', lambda c: G.glob(c('~/*'), flags=B, exclude=[c('~/d'), c('~/b')])),
+                ('translate ~/a', lambda c: G.translate(c('~/a'), flags=B | G.REALPATH)),
+                ('translate !~/a', lambda c: G.translate(c('!~/a'), flags=B | G.REALPATH | G.NEGATE | G.NEGATEALL)),
+                ('translate x|!~/a', lambda c: G.translate(c('x|!~/a'), flags=B | G.REALPATH | G.NEGATE | G.SPLIT)),
+                ('translate -~/a', lambda c: G.translate(c('-~/a'), flags=B | G.REALPATH | G.NEGATE | G.MINUSNEGATE | G.NEGATEALL)),
+                ('translate \\!~/a', lambda c: G.translate(c('\\!~/a'), flags=B | G.REALPATH | G.NEGATE)),
+                ('translate ~root/x', lambda c: G.translate(c('~root/x'), flags=B | G.REALPATH)),
+                ('globmatch home/a vs [home/**, !~/a]', lambda c: G.globmatch(c(home + '/a'), [c(eh + '/**'), c('!~/a')], flags=B | G.REALPATH | G.NEGATE)),
+                ('globmatch home/b vs [home/**, !~/a]', lambda c: G.globmatch(c(home + '/b'), [c(eh + '/**'), c('!~/a')], flags=B | G.REALPATH | G.NEGATE)),
+                ('globfilter', lambda c: G.globfilter([c(home + '/a'), c(home + '/b'), c(home + '/d/a')], c(eh + '/**|!~/a|!~/d/*'), flags=B | G.REALPATH | G.NEGATE | G.SPLIT)),
+                ('compile.match', lambda c: G.compile([c('~/*')], flags=B | G.REALPATH, exclude=c('~/b')).match(c(home + '/b'))),
+                ('glob ~/!x', lambda c: G.glob(c('~/\\!x'), flags=B | G.NEGATE)),
+            ]
+            for what, call_ in calls:
+                with ctx.case(label=('tilde', what)):
+                    r = pair(ctx, 'GLOBTILDE ' + what, {'call': what, 'home': home}, lambda: call_(lambda x: x), lambda: call_(enc))
+                    ctx.count('tilde_pair_checks')
+                    if r:
+                        ctx.mark_nontrivial(('tilde', what))
+        finally:
+            if old is None:
+                os.environ.pop('HOME', None)
+            else:
+                os.environ['HOME'] = old
+
+
 def run(ctx):
     quick = ctx.quick
+    tilde_pairs(ctx)
     high_bytes(ctx)
     high_byte_tree(ctx)
     drive_text_pairs(ctx)
